@@ -119,6 +119,10 @@ func (c *Compiler) Compile(node parser.Node) error {
 		if err := c.emit(OpMap, len(node.Pairs)); err != nil {
 			return err
 		}
+	case *parser.EmptyStmt:
+		// blank lines and comments compile to nothing
+	default:
+		return fmt.Errorf("%w: %T", ErrUnsupportedExpression, node)
 	}
 	return nil
 }
